@@ -99,6 +99,13 @@ def skolemize(t):
     return t
 
 
+class DynClassV(object):
+    """x.__class__ of an object whose dynamic class is unknown"""
+
+    def __init__(self, term):
+        self.term = term
+
+
 class Obl(object):
     def __init__(self, name, assumptions, goal, kind, func, node=None):
         self.name = name
@@ -195,6 +202,7 @@ UFS = {
     "strip": ([STR], STR),
     "lstrip": ([STR], STR),
     "str_of_int": ([INT], STR),
+    "clsname": ([REF], STR),
 }
 
 
@@ -556,7 +564,13 @@ class Run(object):
 
     def get_attr(self, base, attr, st, node=None):
         if isinstance(base, ModuleV):
-            r = self.engine.repo.resolve(base.name + "." + attr)
+            r = None
+            pm = self.engine.repo.module(base.name)
+            if pm is not None and attr in pm.imports and (attr in pm.classes or self.engine.repo.module(base.name + "." + attr) is not None):
+                # a package whose __init__ binds the name (from .x import x) shadows its sub-module of the same name
+                r = self.engine.repo.resolve(pm.imports[attr])
+            if r is None:
+                r = self.engine.repo.resolve(base.name + "." + attr)
             if r is None:
                 if base.name + "." + attr in self.engine.contracts:
                     return FuncV(base.name + "." + attr)
@@ -569,6 +583,11 @@ class Run(object):
                 return ClassV(r[1].name + "." + r[2])
             if r[0] == "const":
                 return self.lift_const(st, r[1])
+        if isinstance(base, DynClassV) and attr == "__name__":
+            return App("clsname", (base.term,), STR)
+        if isinstance(base, ObjV) and attr == "__class__":
+            # the dynamic class of an object is not tracked: its name is an uninterpreted string
+            return DynClassV(base.term)
         if isinstance(base, ObjV):
             # method?
             if base.cls:
@@ -843,6 +862,17 @@ class Run(object):
         st.guards.append(Not(c))
         b = self.ev(node.orelse, st)
         st.guards.pop()
+        # `x if x is not None else d`: the optional is unwrapped on the branch on which it is proved not to be None
+        if isinstance(a, OptV) and not isinstance(b, (OptV, NoneV)):
+            st.guards.append(c)
+            self.check(st, Not(a.isnone), "TypeError", node)
+            st.guards.pop()
+            a = a.val
+        if isinstance(b, OptV) and not isinstance(a, (OptV, NoneV)):
+            st.guards.append(Not(c))
+            self.check(st, Not(b.isnone), "TypeError", node)
+            st.guards.pop()
+            b = b.val
         if isinstance(a, T) and isinstance(b, T):
             return Ite(c, a, b)
         if isinstance(a, ListV) and isinstance(b, ListV):
@@ -965,7 +995,10 @@ class Run(object):
         if isinstance(a, T) and isinstance(b, T):
             if a.sort != b.sort:
                 if {a.sort, b.sort} == {INT, BOOL}:
-                    raise Unsupported("int/bool comparison")
+                    # bool is a subclass of int: True == 1, False == 0
+                    ai = a if a.sort == INT else Ite(a, I(1), I(0))
+                    bi = b if b.sort == INT else Ite(b, I(1), I(0))
+                    return Eq(ai, bi)
                 if a.sort == VAL and b.sort in (INT, STR):
                     return Eq(a, App("VInt" if b.sort == INT else "VStr", (b,), VAL))
                 if b.sort == VAL and a.sort in (INT, STR):
@@ -1810,6 +1843,8 @@ class Run(object):
                 self.set_cell(st, v.cell, self.fresh(g, st.cells[v.cell][0].sort))
             elif isinstance(v, T):
                 st.ghost[g] = self.fresh(g, v.sort)
+            elif isinstance(v, ObjV):
+                st.ghost[g] = ObjV(self.fresh(g, REF), v.cls)
             else:
                 raise Unsupported("havoc ghost " + g)
             return
@@ -2052,6 +2087,11 @@ class Run(object):
                     return
             if isinstance(base, DictV):
                 raise Unsupported("dict store")
+            if isinstance(base, ObjV) and base.cls == "builtins.dict" and not isinstance(target.slice, ast.Slice):
+                # an opaque dictionary object: the store changes its (unmodelled) content and nothing else
+                self.ev(target.slice, st)
+                self.write_field(st, base, "__items__", self.fresh("items", INT), node)
+                return
         raise Unsupported("assignment target %s" % type(target).__name__)
 
     def st_If(self, s, st):
